@@ -104,3 +104,13 @@ Qed.
 
 Example guarded_hyp_satisfiable : guarded_call gen_affix_guarded (CPutData (FRaw 0)).
 Proof. left. reflexivity. Qed.
+
+(* the frozen tree: the affix calls reach an access-mode and a protection test *)
+Lemma gen_affix_guarded_true : gen_affix_guarded = true.
+Proof. vm_compute. reflexivity. Qed.
+
+Lemma rdonly_inert_gen : forall s c, rw s = false -> gen_exec s c = (RAccMode, s).
+Proof. intros s c H. apply rdonly_inert_l; [exact H|right; exact gen_affix_guarded_true]. Qed.
+
+Lemma protect_respected_gen : forall s c, is_protect_call c = false -> unchanged_protected s (snd (gen_exec s c)).
+Proof. intros s c H. apply protect_respected_l; [exact H|right; exact gen_affix_guarded_true]. Qed.
